@@ -42,6 +42,14 @@ def _bool_switches(bi, local, negated=False, depth=0, seen=None):
                 out += _bool_switches(bi, st.lhs.local, negated, depth + 1, seen)
             elif st.rv.k == "un" and st.rv.j.get("op") == "Not":
                 out += _bool_switches(bi, st.lhs.local, not negated, depth + 1, seen)
+            elif st.rv.k == "bin" and st.rv.j.get("op") in ("Eq", "Ne") and len(st.rv.ops) == 2:
+                # `x == false`, `x != true`, ..
+                cb = [o.const_bool() for o in st.rv.ops]
+                other = [o for o in st.rv.ops if o.const_bool() is None]
+                cst = [c for c in cb if c is not None]
+                if len(cst) == 1 and len(other) == 1 and other[0].place is not None and other[0].place.is_local() and other[0].place.local == local:
+                    same = (st.rv.j["op"] == "Eq") == cst[0]        # the result equals x
+                    out += _bool_switches(bi, st.lhs.local, negated if same else not negated, depth + 1, seen)
     return out
 
 
